@@ -28,12 +28,7 @@ func prodCampaign(rc *RunCtx, chains, steps int) {
 					if gs.TokenMessengerList[i].DomainId == 3 {
 						gs.TokenMessengerList[i].Address = make([]byte, 32)
 					}
-					if gs.TokenMessengerList[i].DomainId == 2 { // only a genesis file can hold a messenger that is not 32 bytes long
-						gs.TokenMessengerList[i].Address = Structured32(0x2c)[:20]
-					}
-					if gs.TokenMessengerList[i].DomainId == 1 && k%2 == 0 {
-						gs.TokenMessengerList[i].Address = append(Structured32(0x2d), 0xee)
-					}
+
 				}
 			case 3:
 				gs.MaxMessageBodySize.Amount = 132
@@ -43,6 +38,14 @@ func prodCampaign(rc *RunCtx, chains, steps int) {
 				cfg.MintDenom = "uusdc45"
 			case 6:
 				cfg.MintDenom = "uusdc496"
+			}
+			for i := range gs.TokenMessengerList { // only a genesis file can hold a messenger that is not 32 bytes long
+				if gs.TokenMessengerList[i].DomainId == 2 && k%3 == 0 {
+					gs.TokenMessengerList[i].Address = Structured32(0x2c)[:20]
+				}
+				if gs.TokenMessengerList[i].DomainId == 5 && k%3 == 1 {
+					gs.TokenMessengerList[i].Address = append(Structured32(0x2d), 0xee)
+				}
 			}
 			if k%4 == 2 { // stray funds sit in the module account (anyone can send coins to its address)
 				cfg.Funded[moduleBech()] = big.NewInt(1000)
